@@ -44,6 +44,8 @@ def check (params : List String) (lines : List String) : CaseResult := Id.run do
       -- conditions evaluated by many tokens at once: each token takes the branch its own value selects
       if !((w == "wrote=1" && t == "took=Y") || (w == "wrote=0" && t == "took=N")) then
         r := { r with specs := s!"outcome:condition_crosstalk: {i} {b} {w} {t} — a token whose answer wrote that value took another branch while other tokens evaluated their conditions at the same instant" :: r.specs }
+    | "c17" :: "mergecount" :: ws =>
+      r := { r with specs := s!"outcome:merge_tokens_lost: {" ".intercalate ws} — every token of the fork must be requested at M, pass the catch event on the one signal, be requested at N, and the instance must complete" :: r.specs }
     | ["c17", "condincomplete"] =>
       r := { r with specs := "outcome:condition_crosstalk: an instance did not complete after every task was answered" :: r.specs }
     | "c17" :: "noquiesce" :: _ =>
